@@ -846,6 +846,11 @@ def T4(ctx, rule="T4"):
         ctx.ok(rule, "no-filter", "-", "no filtering adaptor stands between interruptible_with (%d call sites) and the scheduler" % wraps)
 
 
+# adaptors that poll a future once or may drop it before completion
+MAY_ABANDON = ("now_or_never", "poll_immediate", "timeout", "timeout_at", "abortable", "select", "select_ok", "try_select", "race")
+MAY_ABANDON_PATHS = ("futures::future::poll_immediate", "tokio::time::timeout", "futures::future::select")
+
+
 def A1(ctx, rule="A1"):
     """No dropped futures on the streaming paths: a call that produces a future
     (crate-local async fn, tokio send/read/write, ...) inside a body reachable from
@@ -886,12 +891,21 @@ def A1(ctx, rule="A1"):
                 for o in ops:
                     if o["k"] in ("copy", "move") and o["pl"]["l"] == dl:
                         used = True
+            abandoned = None
             for bb2, t2 in b.calls():
                 if callee_path(t2) in ("std::mem::drop", "std::mem::forget"):
                     continue
                 for a in t2["args"]:
                     if a["k"] in ("copy", "move") and a["pl"]["l"] == dl:
                         used = True
+                        p2 = callee_path(t2) or ""
+                        if p2.split("::")[-1] in MAY_ABANDON or p2 in MAY_ABANDON_PATHS:
+                            abandoned = p2
+            if abandoned:
+                ctx.bad(rule, "abandoned|%s|%s" % (short(b.id), (c.get("path") or "?").split("::")[-1]), m.where(b, bb),
+                        "the future returned by %s is handed to %s, which polls it at most once / may drop it unfinished: whether the operation "
+                        "happens then depends on the ambient task (tokio's cooperative budget, other runs polled in the same task)" % (c.get("path"), abandoned))
+                continue
             if dl == 0:
                 used = True
             name = c.get("path") or "?"
